@@ -703,6 +703,7 @@ class Client:
         Returns:
           The value for the key, or default if the key wasn't found.
         """
+        self._check_integer(expire, "expire")
         return self._fetch_cmd(
             b"gat", [key], False, key_prefix=self.key_prefix, expire=expire
         ).get(key, default)
@@ -764,6 +765,7 @@ class Client:
           or (default, cas_defaults) if the key was not found.
         """
         defaults = (default, cas_default)
+        self._check_integer(expire, "expire")
         return self._fetch_cmd(
             b"gats", [key], True, key_prefix=self.key_prefix, expire=expire
         ).get(key, defaults)
@@ -1089,7 +1091,8 @@ class Client:
                 f"{name} must be integer, got bad value: {value!r}"
             )
 
-        return str(value).encode(self.encoding)
+        # int() so that a bool is sent as 0/1 rather than as "True"/"False"
+        return str(int(value)).encode(self.encoding)
 
     def _check_cas(self, cas: Union[int, str, bytes]) -> bytes:
         """Check that a value is a valid input for 'cas' -- either an int or a
@@ -1264,7 +1267,7 @@ class Client:
                 + b" "
                 + key
                 + b" "
-                + str(data_flags).encode(self.encoding)
+                + self._check_integer(data_flags, "flags")
                 + b" "
                 + expire_bytes
                 + b" "
